@@ -61,6 +61,8 @@ template <class T>
 inline std::string io_(const std::optional<T>& v) { return v ? std::to_string((long long)*v) : "none"; }
 inline std::string uo_(const std::optional<unsigned long long>& v) { return v ? std::to_string(*v) : "none"; }
 std::string so(const std::optional<std::string>& s);
+// every per-field getter of a track as one text (djv_db.cpp)
+std::string track_getters_text(const djinterop::track& t);
 std::optional<std::string> rd_ostr(cursor& c);
 djinterop::track_snapshot rd_snapshot(cursor& c);
 std::string wr_snapshot(const djinterop::track_snapshot& s);
